@@ -29,3 +29,12 @@ def bounded(world, tier, seed, rep):
 def bounded_search(world, unit_name):
     found = hn.search(PROP, hn.VERS, seed=0, budget=800)
     return [dict(found, clause="C03/native-differential")] if found else []
+
+
+def rebuild_inlined(world, failing_helpers):
+    """Stale helper clauses: re-prove with the bodies of the functions whose helper clauses failed inlined into their callers."""
+    bad = {h["unit"].split("[")[0] for h in failing_helpers}
+    units = build(world)
+    for u in units:
+        u.no_contract_for = tuple(bad)
+    return units
